@@ -53,6 +53,51 @@ fn wal_has_marker(dir: &Path, marker: &[u8]) -> (bool, usize) {
     (found, frames)
 }
 
+/// (page number, page image) of every checksum-valid frame, in log order
+fn wal_frames(dir: &Path) -> Vec<(u32, Vec<u8>)> {
+    let mut out = Vec::new();
+    let mut segs: Vec<PathBuf> = std::fs::read_dir(dir.join("wal")).map(|d| d.filter_map(|e| e.ok()).map(|e| e.path()).collect()).unwrap_or_default();
+    segs.sort();
+    for s in segs {
+        let Ok(bytes) = std::fs::read(&s) else { continue };
+        let stride = WAL_FRAME_HEADER_SIZE + PAGE;
+        let mut off = 0;
+        while off + stride <= bytes.len() {
+            let hdr = &bytes[off..off + WAL_FRAME_HEADER_SIZE];
+            let page = &bytes[off + WAL_FRAME_HEADER_SIZE..off + stride];
+            let stored = u64::from_le_bytes(hdr[24..32].try_into().unwrap());
+            if !(hdr.iter().any(|b| *b != 0) && crc64(&[&hdr[..24], page]) == stored) {
+                break;
+            }
+            out.push((u32::from_le_bytes(hdr[8..12].try_into().unwrap()), page.to_vec()));
+            off += stride;
+        }
+    }
+    out
+}
+
+/// content of every table-storage file (`*.tbd`) below the database directory
+fn snapshot_tables(dir: &Path) -> std::collections::BTreeMap<String, Vec<u8>> {
+    fn walk(d: &Path, rel: String, out: &mut std::collections::BTreeMap<String, Vec<u8>>) {
+        if let Ok(rd) = std::fs::read_dir(d) {
+            for e in rd.filter_map(|e| e.ok()) {
+                let p = e.path();
+                let name = format!("{rel}{}", e.file_name().to_string_lossy());
+                if p.is_dir() {
+                    if name != "wal" {
+                        walk(&p, format!("{name}/"), out);
+                    }
+                } else if name.ends_with(".tbd") {
+                    out.insert(name, std::fs::read(&p).unwrap_or_default());
+                }
+            }
+        }
+    }
+    let mut out = Default::default();
+    walk(dir, String::new(), &mut out);
+    out
+}
+
 fn debug_dump_wal(dir: &Path) {
     let wal_dir = dir.join("wal");
     let mut segs: Vec<PathBuf> = std::fs::read_dir(&wal_dir).map(|d| d.filter_map(|e| e.ok()).map(|e| e.path()).collect()).unwrap_or_default();
@@ -131,6 +176,12 @@ fn exec_ok(db: &Database, sql: &str) -> Result<(), String> {
 }
 
 fn scenario(name: &str, bound: usize, scratch: PathBuf, setup: Vec<String>, handles: Vec<Vec<Txn>>) -> Scenario {
+    scenario_cov(name, bound, scratch, setup, handles, false)
+}
+
+/// `coverage` (single-handle scenarios only): when COMMIT returns, every page of every table file
+/// that differs from its content before BEGIN must be in the log with exactly its current image.
+fn scenario_cov(name: &str, bound: usize, scratch: PathBuf, setup: Vec<String>, handles: Vec<Vec<Txn>>, coverage: bool) -> Scenario {
     let nm = name.to_string();
     Scenario {
         name: name.to_string(),
@@ -164,6 +215,7 @@ fn scenario(name: &str, bound: usize, scratch: PathBuf, setup: Vec<String>, hand
                     hs.push(shuttle::thread::spawn(move || {
                         for (j, t) in txns.iter().enumerate() {
                             let marker = format!("MK_h{h}_t{j}_");
+                            let before = if coverage { snapshot_tables(&dir) } else { Default::default() };
                             if exec_ok(&hdb, "BEGIN").is_err() {
                                 continue;
                             }
@@ -182,11 +234,54 @@ fn scenario(name: &str, bound: usize, scratch: PathBuf, setup: Vec<String>, hand
                                     // acknowledged: the log must already hold a valid frame with this row
                                     let (found, frames) = wal_has_marker(&dir, marker.as_bytes());
                                     if !found {
-                                        icb.event(
-                                            &format!("C37/{nm}/acknowledged-before-logged"),
-                                            "a checksum-valid WAL frame containing the committed row exists when COMMIT returns",
-                                            &format!("COMMIT {j} of handle {h} returned Ok; marker {marker} is in none of the {frames} valid frames on disk"),
-                                        );
+                                        // C37: "written to the log … before its submitter is told it succeeded";
+                                        // C38: "covered by the log before the commit returns" — the same observation
+                                        // contradicts both statements, so it is reported under both properties
+                                        for p in ["C37", "C38"] {
+                                            icb.event(
+                                                &format!("{p}/{nm}/acknowledged-before-logged"),
+                                                "a checksum-valid WAL frame containing the committed row exists when COMMIT returns",
+                                                &format!("COMMIT {j} of handle {h} returned Ok; marker {marker} is in none of the {frames} valid frames on disk"),
+                                            );
+                                        }
+                                    }
+                                    if coverage {
+                                        let frames = wal_frames(&dir);
+                                        let after = snapshot_tables(&dir);
+                                        let mut missing: std::collections::BTreeMap<String, Vec<usize>> = Default::default();
+                                        let mut modified = 0usize;
+                                        let mut detail: Vec<String> = Vec::new();
+                                        for (f, bytes) in &after {
+                                            let old = before.get(f);
+                                            for (pno, img) in bytes.chunks(PAGE).enumerate() {
+                                                let same = old.map_or(false, |o| o.len() >= (pno + 1) * PAGE && &o[pno * PAGE..(pno + 1) * PAGE] == img) || (old.map_or(true, |o| o.len() < (pno + 1) * PAGE) && img.iter().all(|b| *b == 0));
+                                                if same {
+                                                    continue;
+                                                }
+                                                modified += 1;
+                                                if !frames.iter().any(|(p, fr)| *p as usize == pno && fr.as_slice() == img) {
+                                                    let kind = if pno == 0 { "header-page" } else { "data-page" };
+                                                    // the latest frame for this page number that shares the page's first byte (page type), if any
+                                                    let how = match frames.iter().rev().find(|(p, _)| *p as usize == pno) {
+                                                        None => "no-frame".to_string(),
+                                                        Some((_, fr)) => {
+                                                            let d: Vec<usize> = (0..PAGE).filter(|i| fr[*i] != img[*i]).collect();
+                                                            detail.push(format!("page {pno}: latest frame differs at {} byte(s), offsets {:?}", d.len(), &d[..d.len().min(12)]));
+                                                            "stale-frame".to_string()
+                                                        }
+                                                    };
+                                                    missing.entry(format!("{}/{kind}/{how}", f.rsplit('.').next().unwrap_or("?"))).or_default().push(pno);
+                                                }
+                                            }
+                                        }
+                                        icb.outcome(format!("txn{j}:modified_pages={}", if modified > 16 { ">16" } else { "<=16" }));
+                                        for (k, pages) in missing {
+                                            icb.event(
+                                                &format!("C38/{nm}/modified-page-not-covered-by-log/{k}/{}", if modified > 16 { "large-commit" } else { "small-commit" }),
+                                                "every page the committed transaction modified is in the log with its committed image when COMMIT returns",
+                                                &format!("COMMIT {j} returned Ok; {modified} pages differ from their pre-BEGIN content; no valid frame carries the current image of page(s) {pages:?}; {}", detail.join("; ")),
+                                            );
+                                        }
                                     }
                                     acked.lock().unwrap().push((h, j, t.table.clone(), t.key, marker));
                                 }
@@ -411,6 +506,14 @@ fn scenarios(ctx: &Ctx) -> Vec<Scenario> {
         scenario("2h-own-tables", if q { 1 } else { 2 }, s.clone(), setup_two.clone(), vec![vec![ins("t0", 1), ins("t0", 2)], vec![ins("t1", 1)]]),
         scenario("2h-same-table", if q { 1 } else { 2 }, s.clone(), setup_one.clone(), vec![vec![ins("t0", 1)], vec![ins("t0", 2)]]),
     ]);
+    // one handle, one small (<= 16 dirty pages) and one large (chunked path) transaction: log coverage
+    // of every modified table page at COMMIT return (C38, second sentence); one schedule, cheap
+    let bulk = |n: i64, from: i64| Txn {
+        stmts: (0..n).map(|i| format!("INSERT INTO t0 VALUES ({}, '{{m}}{}')", from + i, "p".repeat(700))).collect(),
+        table: "t0".to_string(),
+        key: from,
+    };
+    v.push(scenario_cov("1h-small-then-large-commit", 0, s.clone(), setup_one.clone(), vec![vec![bulk(12, 1000), bulk(if q { 420 } else { 900 }, 2000), bulk(3, 5000)]], true));
     if !q {
         v.push(scenario("3h-own-tables", 1, s.clone(), {
             let mut x = setup_two.clone();
